@@ -460,6 +460,11 @@ func c16Run(c c16Case, o *hx.Obs) {
 			if y, ok := got["y"].(dm.Tree); ok {
 				check("/y", y, nil, []string{"other"}, holds[0])
 			}
+			// an edit that is not carried out leaves what the container held as it was
+			if d := dm.Diff(modelRoot, dm.Tree{"y": target["y"]}, dm.Tree{"y": got["y"]}, dm.DiffOpts{AllowDefaults: true}, ""); len(d) > 0 && !holds[0] {
+				o.Failf(sig("destroyed-when-false"), "upsert into /y whose when %q is false (operand %v unset=%v, error %v) changed what it held: %s\nbefore %s after %s", expr, c.Values, c.Unset, uerr, joinMax(d, 3), jsonOf(target), jsonOf(got))
+				return
+			}
 		case "leaf-when":
 			check("", got, nil, []string{"y"}, holds[0])
 		case "uses-when":
